@@ -30,6 +30,7 @@ def r1_for_to_loop(it, fn):
     # close first (offsets after bc unaffected by the head rewrite order if done back to front)
     it.buf.replace_span(bc, bc + 1, "}\n}\n}", ("rule", "R1"))
     it.buf.replace_span(m.start(), m.end(), f"loop\n{{\nmatch {m.group(2)}.next() {{\nNone => {{\nbreak;\n}}\nSome({m.group(1)}) => {{", ("rule", "R1"))
+    return m.group(1)
 
 
 GLUE = r"""
@@ -128,7 +129,7 @@ def build(u):
     it = u.item("src/decoder.rs", "impl Iterator for MappingsDecoder<'_>")
     it.rule("D1", r"impl Iterator for MappingsDecoder<'_> \{\s*type Item = Mapping;", "impl MappingsDecoder<'_> {")
     it.rule("D1", r"Option<Self::Item>", "Option<Mapping>")
-    r1_for_to_loop(it, "next")
+    cv = r1_for_to_loop(it, "next")  # name of the loop variable (hints refer to it)
     it.sig("next", [
         ("next.requires", "contract", "requires old(self).inv()"),
         ("next.inv", "contract", "ensures final(self).inv(),"),
@@ -152,14 +153,14 @@ def build(u):
           "proof { assert(self.rem() =~= pre.rem()); assert(pre.rem().len() == 0); }", optional=False, tags=F)
     it.at("next", "after", r"Some\(\w+\)\s*=>\s*\{", "next.hint.some", "hint",
           "proof {\n"
-          "  assert(pre.rem() =~= seq![*c] + self.rem());\n"
+          "  assert(pre.rem() =~= seq![*" + cv + "] + self.rem());\n"
           "  assert(self.rem() =~= pre.rem().skip(1));\n"
-          "  assert(pre.rem()[0] == *c);\n"
+          "  assert(pre.rem()[0] == *" + cv + ");\n"
           "  let n = old(self).rem().len() - pre.rem().len();\n"
           "  assert(self.rem() =~= old(self).rem().skip(n + 1));\n"
           "  assert(self.ds() == pre.ds());\n"
           "  lemma_b64_table();\n"
-          "  assert(B64@[*c as int] == tbl(*c));\n"
+          "  assert(B64@[*" + cv + " as int] == tbl(*" + cv + "));\n"
           "}", nth=1, regex=True, tags=F)
     it.at("next", "before", r"let\s+final_value\s*=", "next.hint.shr", "hint",
           "proof { let x = self.current_value as i64; assert((x >> 1) > -0x4000_0000_0000_0001i64 && (x >> 1) < 0x4000_0000_0000_0000i64) by (bit_vector); }",
